@@ -164,6 +164,10 @@ package rapid
 //@ event AwaitInvokeAgentsReadyOK = ret core.(InvokeFlowSynchronization).AwaitAgentsReady when r0 == nil
 //@ event ActiveExtensionsCheck = ret rapid.(*rapidContext).HasActiveExtensions
 
+// before the first invocation start nothing is owed: a reset for timeout / failure during the first initialisation
+// must not produce a runtime-done that belongs to no invocation
+//@ func Start
+//@   ensures [nothing-is-owed-before-the-first-invocation-start] typeis(r0, *rapidContext) && r0.(*rapidContext).invokeRuntimeDoneSent
 // the runtime-done bookkeeping of one invocation: rtDoneBooked(c) relates the flag on the context to the ghost count
 //@ spec rtDoneBooked(execCtx *rapidContext) bool = since(EvInvokeRuntimeDone, EvInvokeStart) <= 1 && (since(EvInvokeRuntimeDone, EvInvokeStart) >= 1 ==> execCtx.invokeRuntimeDoneSent)
 // C04: the wait for the extensions is skipped only when no extension at all is registered (internal ones count)
